@@ -207,6 +207,13 @@ QUERIES = [
     # 20-21: one function overload evaluated by two statements, a yield point while its arguments are being evaluated
     ("SELECT root(account, vp_yield('x', lineno) * 0 + 2) AS r, account FROM #postings", None),
     ("SELECT vp_yield('x', lineno) AS y, root(account, 1) AS r FROM #postings", None),
+    # 22-23: metadata look-ups that fall back from the posting to the transaction, next to plain look-ups
+    ("SELECT vp_yield('x', lineno) AS y, any_meta('category') AS c, any_meta('note') AS n FROM #postings", None),
+    ("SELECT vp_yield('x', lineno) AS y, meta('category') AS c, meta('note') AS n, meta FROM #postings", None),
+    # 24-25: FROM-subqueries whose columns have the same names at different positions; the first statement parks (in the
+    # compilation of a constant call) between compiling its FROM clause and resolving its column references
+    ("SELECT vp_yield('c', 3) AS y, account, number FROM (SELECT account, number, date FROM #postings)", None),
+    ("SELECT number, vp_yield('c', 4) AS y, account FROM (SELECT date, number, account FROM #postings)", None),
 ]
 OUTPUT_PHASE = (8, 9)
 
@@ -225,6 +232,18 @@ def audit_fingerprint(conn):
                     fp['%s.%s' % (name, attr)] = (type(val).__name__, len(val), repr(sorted(map(str, val)))[:2000] if isinstance(val, (dict, set)) else len(val))
                 except Exception:  # noqa: BLE001
                     fp['%s.%s' % (name, attr)] = (type(val).__name__, len(val))
+        # class-level containers (shared by every instance, statement, connection and thread)
+        import inspect
+        for cname, cls in list(vars(mod).items()):
+            if not inspect.isclass(cls) or getattr(cls, '__module__', None) != name:
+                continue
+            for attr, val in list(vars(cls).items()):
+                if attr.startswith('__') or not isinstance(val, (dict, list, set)):
+                    continue
+                try:
+                    fp['%s.%s.%s' % (name, cname, attr)] = (type(val).__name__, len(val), repr(val)[:2000])
+                except Exception:  # noqa: BLE001
+                    fp['%s.%s.%s' % (name, cname, attr)] = (type(val).__name__, len(val))
     for tname, t in conn.tables.items():
         fp['table:%s' % tname] = (id(t), sorted(vars(t)) if hasattr(t, '__dict__') else None,
                                  len(getattr(t, 'entries', []) or []))
@@ -245,7 +264,8 @@ def run(ctx):
         else:
             other = ledgers.connect(*ledgers.gen_ledger(rng, ntxn=rng.range(3, 6))[1:])    # a different ledger
         before = audit_fingerprint(shared)
-        fixed = [(0, 0), (0, 3), (8, 8), (12, 13), (14, 15), (15, 16), (19, 19), (20, 21), (17, 18), (10, 1), (9, 9), (3, 3), (8, 9), (0, 1), (10, 2),
+        entries_before = ledgers.entries_snapshot(entries)
+        fixed = [(0, 0), (0, 3), (8, 8), (12, 13), (14, 15), (15, 16), (19, 19), (20, 21), (17, 18), (24, 25), (22, 23), (10, 1), (9, 9), (3, 3), (8, 9), (0, 1), (10, 2),
                  (11, 2), (12, 12), (13, 12), (21, 20), (17, 17)]
         pairs = rng.shuffle(list(itertools.product(range(len(QUERIES)), repeat=2)))
         if not ctx.thorough():
@@ -304,6 +324,11 @@ def run(ctx):
         ctx.count('audit-objects', len(after))
         if changed:
             ctx.record_violation('shared-state-written', 'module/table state changed across executions: %r' % changed[:8])
+        entries_after = ledgers.entries_snapshot(entries)
+        if entries_after != entries_before:
+            diff = next(((a, b) for a, b in zip(entries_before, entries_after) if a != b), None)
+            ctx.record_violation('shared-state-written', 'the loaded directives (shared by every connection over them) were changed by '
+                                 'executing statements: %r' % (diff,), payload={'ledger': text})
         # unscheduled stress (testing)
         if ctx.thorough():
             for rep in range(30):
